@@ -58,6 +58,10 @@ Record FullOk (evl : evlist) (g : ghost) (w : world) (e : nat) (en : StateModel.
              (s_shash (gs en (negb sd)) = Some (ProvModel.o_data ob) \/
               (s_shash (gs en sd) <> Some (ProvModel.o_data ob) /\ flagP evl en sd k)) /\
              (forall k', s_oid (gs en (negb sd)) = Some (ostr_k k') -> g_get k' (g_of g (negb sd)) = None));
+  (* owner side, continued: never synchronised = no sync markers; a sync path was a path *)
+  fo_owner2 : is_discarded (e_ign en) = false -> forall cs, g_get k (g_of g sd) = Some cs ->
+          (s_oid (gs en (negb sd)) = None -> s_spath (gs en sd) = None /\ s_shash (gs en sd) = None) /\
+          (s_spath (gs en sd) <> None -> s_path (gs en sd) <> None);
   (* mirror side: made and written by the engine only *)
   fo_mirror : is_discarded (e_ign en) = false -> g_get k (g_of g sd) = None ->
           ProvModel.o_exists ob = true /\ s_ex (gs en sd) = ExExists /\
@@ -149,7 +153,7 @@ Lemma FullOk_frame evl evl' g g' w w' e en sd k ob :
      obj_at w' (negb sd) k' = obj_at w (negb sd) k' /\ g_get k' (g_of g' (negb sd)) = g_get k' (g_of g (negb sd))) ->
   FullOk evl' g' w' e en sd k ob.
 Proof.
-  intros F Hlg Hpd Hg Hother. destruct F as [f1 f2 f3 f4 f5 f6 f7 f8 f9]. constructor; auto.
+  intros F Hlg Hpd Hg Hother. destruct F as [f1 f2 f3 f4 f5 f6 f7 f8 f10 f9]. constructor; auto.
   - destruct f2 as [A|[A|A]]; [left; auto|right; left; rewrite Hlg; exact A|right; right; exact A].
   - intros Hd Ho. eapply flagP_mono; [exact Hpd|auto].
   - intros Hd Ho. destruct (f7 Hd Ho) as [A|A]; [left; eapply flagP_mono; eauto|right; exact A].
@@ -158,6 +162,7 @@ Proof.
     intros Ho. destruct (E0 Ho) as (E1 & E2 & E3 & E4). split; [exact E1|]. split; [exact E2|]. split.
     + destruct E3 as [E3|(E3 & E5)]; [left; exact E3|right; split; [exact E3|eapply flagP_mono; eauto]].
     + intros k' Hk'. destruct (Hother k' Hk') as (_ & Hg'). rewrite Hg'. apply E4. exact Hk'.
+  - intros Hd cs Hcs. rewrite Hg in Hcs. apply (f10 Hd cs Hcs).
   - intros Hd Hcs. rewrite Hg in Hcs. destruct (f9 Hd Hcs) as (A & B & C & D & E0 & F0 & (k' & ob' & G1 & G2 & G3 & G4)).
     repeat (split; [assumption|]). exists k', ob'. destruct (Hother k' G1) as (Ho' & Hg').
     split; [exact G1|]. split; [rewrite Ho'; exact G2|]. split; [exact G3|rewrite Hg'; exact G4].
@@ -188,8 +193,8 @@ Proof. intros (A & B & _). unfold flagged. rewrite A, B. reflexivity. Qed.
 Lemma FullOk_sbp evl g w e a b sd k ob : same_but_prio a b -> FullOk evl g w e a sd k ob -> FullOk evl g w e b sd k ob.
 Proof.
   intros S F. destruct a as [l r i p], b as [l' r' i' p']. destruct S as (S1 & S2 & S3). simpl in S1, S2, S3. subst l' r' i'.
-  destruct F as [f1 f2 f3 f4 f5 f6 f7 f8 f9].
-  constructor; [exact f1|exact f2|exact f3|exact f4|exact f5|exact f6|exact f7|exact f8|exact f9].
+  destruct F as [f1 f2 f3 f4 f5 f6 f7 f8 f10 f9].
+  constructor; [exact f1|exact f2|exact f3|exact f4|exact f5|exact f6|exact f7|exact f8|exact f10|exact f9].
 Qed.
 Lemma EntOk_sbp evl g w e a b : same_but_prio a b -> EntOk evl g w e a -> EntOk evl g w e b.
 Proof.
